@@ -36,12 +36,16 @@ const F_REASSIGN: u16 = 18;
 const H_CALLS_F: u16 = 19;
 const H_CALLS_G: u16 = 20;
 const PRINT_SH: u16 = 21;
-const N_OPS: u16 = 22;
+const H_METHOD: u16 = 22;
+const F_METHOD: u16 = 23;
+const CAPTURE_E: u16 = 24;
+const N_OPS: u16 = 25;
 
-const OP_NAMES: [&str; 22] = [
+const OP_NAMES: [&str; 25] = [
     "x := k", "x = k", "print(x)", "{", "fn f() {", "fn g() {", "while(2) {", "for(2) {", "}",
     "f()", "g()", "return closure", "h = f()", "h()", "h = closure", "guarded f()", "if true {",
     "h = f", "f = closure", "h = closure calling f", "h = closure calling g", "print({x}.x)",
+    "ob.m = h; ob.m()", "ob.m = f; ob.m()", "first iteration: h = closure reading e and x",
 ];
 
 #[derive(Clone, Copy, PartialEq, Debug)]
@@ -50,6 +54,7 @@ enum Open {
     FnF,
     FnG,
     Loop,
+    For,
 }
 
 #[derive(Clone)]
@@ -77,7 +82,7 @@ impl Alphabet for Alpha {
     fn init(&self) -> St {
         St {
             ops: vec![],
-            text: String::from("x := 0\nh := null\nd := 0\n"),
+            text: String::from("x := 0\nh := null\nd := 0\nob := {}\n"),
             open: vec![],
             next_k: 1,
             f_def: false,
@@ -118,6 +123,9 @@ impl Alphabet for Alpha {
                 REC => in_f && !st.rec_used,
                 H_ALIAS_F | F_REASSIGN | H_CALLS_F => self.rich && st.f_def && !in_f,
                 H_CALLS_G => self.rich && st.g_def,
+                H_METHOD => self.rich && st.h_set && last != Some(H_METHOD),
+                F_METHOD => self.rich && st.f_def && !in_f && last != Some(F_METHOD),
+                CAPTURE_E => self.rich && matches!(st.open.last(), Some((Open::For, _, _))),
                 _ => false,
             };
             if ok {
@@ -173,7 +181,7 @@ impl Alphabet for Alpha {
             }
             OPEN_FOR => {
                 s.text.push_str("for e in [0, 1] {\n");
-                s.open.push((Open::Loop, 0, false));
+                s.open.push((Open::For, 0, false));
             }
             CLOSE => {
                 s.open.pop();
@@ -214,6 +222,13 @@ impl Alphabet for Alpha {
                 s.text.push_str("h = fn () {\nprint(\"via h\")\ng()\n}\n");
                 s.h_set = true;
             }
+            H_METHOD => s.text.push_str("ob.m = h\nob.m()\n"),
+            F_METHOD => s.text.push_str("ob.m = f\nob.m()\n"),
+            CAPTURE_E => {
+                s.text.push_str(&format!("if e[1] == 0 {{\nh = fn () {{\nprint(e)\nprint(x)\nx = {}\n}}\n}}\n", k));
+                s.next_k += 1;
+                s.h_set = true;
+            }
             REC => {
                 s.text.push_str("if d < 2 {\nd += 1\nf()\n}\n");
                 s.rec_used = true;
@@ -248,7 +263,7 @@ impl Alphabet for Alpha {
 
     fn nontrivial(&self, st: &St) -> bool {
         let opens = st.ops.iter().any(|o| matches!(*o, OPEN_BLOCK | OPEN_F | OPEN_G | OPEN_WHILE | OPEN_FOR | OPEN_IF));
-        let writes = st.ops.iter().any(|o| matches!(*o, DECL | ASSIGN | RET_CLOSURE | H_FN));
+        let writes = st.ops.iter().any(|o| matches!(*o, DECL | ASSIGN | RET_CLOSURE | H_FN | CAPTURE_E));
         opens && writes
     }
 }
@@ -272,7 +287,7 @@ impl Check for C04 {
         let depth = std::env::var("C04_DEPTH").ok().and_then(|s| s.parse().ok()).unwrap_or(ctx.tier.pick(6usize, 8usize));
         let alpha = Alpha { rich: true };
         ctx.rule = format!(
-            "breadth-first over all well-formed histories of <= {} scope operations from {{x := k, x = k, print(x), open block / fn f / fn g / while(2 iterations) / for(2 elements){}, close, f(), g(), return a closure reading and writing x, h = f(), h(), h = closure, guarded recursive f()}} on top of `x := 0; h := null`; each program is completed by reading x at every open level, closing, and calling f, g, h at top level; dead states (failure before the cursor is first reached) are not expanded; non-trivial = at least one scope-opening operation and one write of x",
+            "breadth-first over all well-formed histories of <= {} scope operations from {{x := k, x = k, print(x), open block / fn f / fn g / while(2 iterations) / for(2 elements){}, close, f(), g(), return a closure reading and writing x, h = f(), h(), h = closure, h = f, f = closure, closures calling f / g, the shorthand {{x}}, a function stored in an object and called as a method, a closure created in the first iteration of a for loop that reads the loop target, guarded recursive f()}} on top of `x := 0; h := null`; each program is completed by reading x at every open level, closing, and calling f, g, h at top level; dead states (failure before the cursor is first reached) are not expanded; non-trivial = at least one scope-opening operation and one write of x",
             depth,
             if alpha.rich { " / if" } else { "" }
         );
